@@ -6,11 +6,7 @@ ALL = ['C%02d' % i for i in range(1, 21)]
 
 CLAIMED = {
  'C01': dict(level='proof',
-   text='Static proof, over all paths of the MIR of the current tree, of the history clause of C01: (SR-1) the three mode '
-        'wrappers restore every scoring field they overwrite on every return and hand the documented mode constants to '
-        'the core routine, which never writes scoring; (RI-1) in the core routine the first mention of every reused '
-        'scratch buffer (I/D/S columns, Lx, Ly, Sn, traceback matrix/rows/cols) on every path is a reset. Optimality of '
-        'the recurrence and coordinate bookkeeping are values of a DP over runtime data and are NOT decided.',
+   text='Static proof, over all paths of the MIR of the current tree, of structural clauses of C01: (SR-1) the three mode wrappers restore every scoring field they overwrite on every return and hand the documented mode constants to the core routine, which never writes scoring; (RI-1) in the core routine the first mention of every reused scratch buffer (I/D/S columns, Lx, Ly, Sn, traceback dimensions) on every path is a reset; (TB-1) the diagonal move is labelled TB_MATCH exactly on the edge x[i-1] == y[j-1] and TB_SUBST on the other, and every arm of the traceback match pushes the operation of its move code; (TB-1b) in the fix-up passes after the main DP every raise of a score cell is paired with the corresponding set_*_bits on the stored traceback cell, so path and score cannot diverge there. Optimality of the recurrence, clip bookkeeping and coordinates are values of a DP over runtime data and are NOT decided.',
    note='Trusted: rustc MIR construction, the fact extractor, the abstract interpreters (SR, RI). Assumes Vec::clear empties '
         'the vector, that capacity does not influence results, and that foreign callees only write through the &mut '
         'arguments they are given. Behaviour of the DP itself is outside the claim.',
@@ -18,47 +14,25 @@ CLAIMED = {
    ref='DESIGN.md section 2, C01'),
 
  'C02': dict(level='proof',
-   text='Static proof over all MIR paths of the structural clauses of C02: (SR-2) the four banded mode wrappers restore every '
-        'scoring field and pass the documented mode constants; no custom* entry point writes scoring; (TS-1) the private '
-        'compute_alignment is reached only from entry points in which a store self.band = Band::create*(..) dominates the '
-        'call, and every Band::create* returns a band built by Band::new(len x, len y) in that call (no stale band); (RI-2) '
-        'first mention of every scratch buffer is a reset; (GD-1) the over-budget edge of `num_cells > MAX_CELLS` returns the '
-        'MIN_SCORE/empty sentinel and all DP state is touched only behind the within-budget edge. Soundness of in-band DP, '
-        'equality with the unbanded optimum and termination of Band::add_kmer are NOT decided.',
+   text='Static proof over all MIR paths of structural clauses of C02: (SR-2) the four banded mode wrappers restore every scoring field and pass the documented mode constants; no custom* entry point writes scoring; (TS-1) the private compute_alignment is reached only from entry points in which a store self.band = Band::create*(..) dominates the call, and every Band::create* returns a band built by Band::new(len x, len y) in that call; (RI-2) first mention of every scratch buffer incl. the traceback matrix is a reset; (GD-1) the over-budget edge of num_cells > MAX_CELLS returns the MIN_SCORE/empty sentinel and all DP state is touched only behind the other edge; (TB-1, TB-1b) operation labelling and score/traceback co-update as in C01. Soundness of in-band DP, equality with the unbanded optimum and termination are NOT decided (two termination/score defects on empty sequences were found by running the code and repaired, see known_findings.txt).',
    note='Trusted: rustc MIR, extractor, SR/RI/GD engines; Vec::clear semantics; foreign callees write only through &mut arguments.',
    technique='static analysis: abstract interpretation + dominance/typestate rules over rustc MIR',
    ref='DESIGN.md section 2, C02'),
  'C16': dict(level='proof',
-   text='Static proof of the graph-monotonicity and mode clauses of C16: (EF-5) every call in alignment::poa that receives '
-        '&mut Graph is add_node, add_edge with a positive constant weight, or edge_weight_mut used only as `*w += const`; the '
-        'graph field is never reassigned in a &mut self method, hence no node label or edge is removed or decreased; (TS-7) per '
-        'alignment operation at most one add_node, labelled seq[i], followed on every path by i += 1; (SR-3) the three mode '
-        'wrappers restore the clip penalties and pass the documented constants to Poa::custom (&self). Score equality with '
-        'Needleman-Wunsch, acyclicity and consensus validity are NOT decided.',
+   text='Static proof of graph-monotonicity, freshness and mode clauses of C16: (EF-5) every call in alignment::poa receiving &mut Graph is add_node, add_edge with a positive constant weight, or edge_weight_mut used only as *w += const; the graph field is never reassigned; (TS-7) per operation at most one add_node, labelled seq[i], followed on every path by i += 1; (EF-7) endpoints of add_edge are created in the call, named by the alignment operation, or the head - never a graph-query result (necessary for acyclicity); (SR-3) the three mode wrappers restore the clip penalties and pass the documented constants to the core routine; (EF-6) every Poa routine returning a Traceback builds it fresh, takes &self, and the Aligner passes no state of an earlier alignment to it. Score equality with Needleman-Wunsch and consensus validity are NOT decided.',
    note='Trusted: rustc MIR, extractor, engines; petgraph API contracts for add_node/add_edge/edge_weight_mut (they do not remove or relabel).',
    technique='static analysis: who-may-call/effect rule on &mut Graph receivers, path counting on the loop CFG, symbolic save/restore',
    ref='DESIGN.md section 2, C16'),
 
  'C08': dict(level='proof',
-   text='(EF-1, proved) A search cannot change a matcher: for ShiftAnd, BNDM, BOM, Horspool and KMP find_all takes &self, the '
-        'types are Freeze, the iterator state is a fresh aggregate and no reachable body touches mutable/non-Freeze statics, so '
-        'answers cannot depend on earlier searches. (PO-1) Every MIR Assert (bounds, overflow, shift, division) and may-panic std '
-        'call in the five matcher modules is either discharged automatically by an interval analysis that uses the private-field '
-        'invariant m <= 64 established at all struct-literal sites (this is what decides the documented 64-symbol limit: the '
-        'checks found and now guard two genuine word-width defects, fixed in /repo), or matches an audited entry with a proof '
-        'sketch. Completeness/soundness of the skipping logic for periodic patterns is NOT decided.',
+   text='(EF-1, proved) A search cannot change a matcher: find_all takes &self, the types cannot hold interior mutability, the iterator state is a fresh aggregate and no reachable body touches mutable/non-Freeze statics. (PO-1) Every MIR Assert (bounds, overflow, shift, division), every may-panic std call and every wrapping/overflowing shift amount in the five matcher modules is discharged automatically by an interval analysis using the private-field invariant m <= 64 established at all struct-literal sites (this decides the documented 64-symbol limit; two genuine word-width defects were found and repaired), or matches an audited entry with a proof sketch. (TS-9) KMP failure links are followed iteratively (q = lps[q-1] lies on a cycle in delta and on an inner cycle in lps). Completeness/soundness of the skipping logic for periodic patterns is otherwise NOT decided.',
    note='Trusted: rustc MIR (dev profile, overflow checks explicit), extractor, interval engine, and the audited table in '
         'rules/c08.py (manual proof sketches keyed by function/kind/normalised operands; any change of that arithmetic must '
         'be re-audited and is reported until then). Non-empty patterns assumed (quantifier of C08).',
    technique='static analysis: effect/Freeze analysis + interval abstract interpretation of panic obligations over rustc MIR',
    ref='DESIGN.md section 2, C08'),
  'C13': dict(level='other',
-   text='Necessary-condition rules decided on the MIR: (EF-4) the GFF serialiser traverses the attribute multimap only with '
-        'all-values APIs (first-value-only MultiMap::iter/get are forbidden) - found and fixed a genuine loss of multi-valued '
-        'attributes; (VD-1) the Option returned by Phase::validate is examined in the deserialiser so out-of-range phases become '
-        'errors - found and fixed a silent coercion; (TB-4) reader and writer take separators from the same GffType::separator '
-        'table, csv delimiter TAB and comment # agree on both sides of BED and GFF, regex named groups match the indexes used. '
-        'Field-for-field equality through the external csv/serde layers is NOT decided.',
+   text='Necessary-condition rules decided on the MIR: (EF-4) the GFF serialiser traverses the attribute multimap only with all-values APIs (found and repaired a loss of multi-valued attributes); (VD-1) the Option returned by Phase::validate is examined so out-of-range phases become errors (found and repaired a silent coercion); (RI-4) the BED/GFF writers keep no scratch state across write() calls unless its first mention is a reset on every path; (TB-4) reader and writer take separators from the same GffType::separator table, csv delimiter TAB and comment # agree, readers are not flexible about the column count, regex named groups match the indexes used. Field-for-field equality through the external csv/serde layers is NOT decided.',
    note='Trusted: rustc MIR, extractor; multimap API contract (iter = first value per key; iter_all/flat_iter/get_vec = all values); csv builder semantics.',
    technique='static analysis: forbidden-callee / validator-discipline / table-agreement rules over resolved callees in rustc MIR',
    ref='DESIGN.md section 2, C13'),
@@ -145,66 +119,41 @@ CLAIMED = {
    ref='DESIGN.md section 2, C20'),
 
  'C03': dict(level='other',
-   text='One writer/reader clause decided: (SB-7) SuffixArray::sample stores row i in `sample` exactly on the edge i % rate == 0 '
-        'with rate the value kept in field s, and inserts extra_rows[i] exactly for unsampled rows whose BWT symbol equals the '
-        'stored sentinel; SampledSuffixArray::get reads sample[pos / s] exactly on the edge pos % s == 0 and extra_rows[&pos] '
-        'exactly under the mirrored condition, behind index < len. Sortedness of the suffix array, sentinel ordering, LCP and '
-        'shortest-unique-substring values and the LF-walk arithmetic are NOT decided (values over runtime data).',
+   text='Clauses decided: (SB-7) writer/reader agreement of the sampled suffix array - sample() stores row i exactly on i % rate == 0 with rate kept in field s and inserts extra_rows[i] for unsampled sentinel rows; get() reads sample[pos / s] exactly on pos % s == 0 and extra_rows[&pos] under the mirrored condition, behind index < len; (NF-1) no count that went through an int->f32->int round trip is used as a bound/length/index in sample(); (SB-5s) the LCP storage SmallInts uses the same strict small/big threshold in push, set and real_value. Sortedness of the suffix array, sentinel ordering, LCP and shortest-unique-substring values and the LF-walk arithmetic are NOT decided.',
    note='Trusted: rustc MIR, extractor, guard normalisation.',
    technique='static analysis: writer/reader guard agreement (normalised comparisons + dominance) over rustc MIR',
    ref='DESIGN.md section 2, C03'),
  'C09': dict(level='proof',
-   text='Reuse clauses proved on the MIR: (RI-3) Ukkonen::find_all_end clears and refills both reused DP columns D[0], D[1] on '
-        'every path before the iterator is built, and Matches::next never resizes them; (EF-2) for both instantiations of '
-        'impl_myers! the non-traceback API distance/find_all_end/find_best_end takes &self and the Myers types cannot hold interior '
-        'mutability (rustc Freeze, or Copy for generic word types), so a search cannot influence a later one. That reported '
-        'distances equal the edit-distance definition (bit-vector arithmetic, block carries, delegated crates) is NOT decided; '
-        'generic BitVec shifts are trait calls in generic MIR so no word-width obligation is visible before monomorphisation.',
+   text='Clauses proved on the MIR: (RI-3) Ukkonen::find_all_end clears and refills both reused DP columns on every path before the iterator is built, Matches::next never resizes them; (EF-2) for both instantiations of impl_myers! distance/find_all_end/find_best_end take &self and the Myers types cannot hold interior mutability; (PO-5) every panic / overflow obligation of the block-based column update (long::States::{new,add_state,step}, advance_block, ceil_div, word_size) is discharged or audited - this found max_dist + w overflowing for the usize::MAX that distance()/find_best_end() pass (wrong distances in release builds), repaired in /repo. That reported distances equal the edit-distance definition (bit-vector arithmetic, block activation logic, delegated crates) is NOT decided.',
    note='Trusted: rustc MIR, extractor, RI engine; Vec::clear semantics.',
    technique='static analysis: must-reset dataflow and receiver/Freeze effect analysis over rustc MIR',
    ref='DESIGN.md section 2, C09'),
  'C10': dict(level='proof',
-   text='Refusal and reset clauses proved on the MIR: (GD-2) Traceback::traceback_at reaches _traceback_at only on the edge '
-        'pos + 2 <= self.pos and returns None otherwise; (EF-3) the four lazy *_at queries of both instantiations reach the '
-        'traceback only through that guarded entry, the unguarded Traceback::traceback is called only from FullMatches; (GD-3) '
-        'FullMatches::{start,path_reverse,alignment} run the traceback only when unsuccessfully_finished is false; (TS-5) both '
-        'Matches constructors pass the matcher\'s state store through Traceback::new, which resizes it on both branches before '
-        'set_max_state and the first add_state, and Traceback is constructed nowhere else; (TB-9) Subst/Ins/Del/Match are each '
-        'produced only behind their own test. Validity of paths, ring-buffer wrap-around and equality of block-based and '
-        'single-word alignments are NOT decided.',
+   text='Refusal, reset and independence clauses proved on the MIR: (GD-2) Traceback::traceback_at reaches _traceback_at only on pos + 2 <= self.pos, else None; (EF-3) the four lazy *_at queries of both instantiations reach the traceback only through that guarded entry; (EF-8) they read no field that next() mutates other than the stored columns, so answers for searched ends do not depend on the search cursor; (GD-3) FullMatches::{start,path_reverse,alignment} run the traceback only when unsuccessfully_finished is false; (TS-5) both Matches constructors pass the state store through Traceback::new, which resizes it on both branches, then writes the sentinel column, then the first state; Traceback is constructed nowhere else; (TB-9) Subst/Ins/Del/Match each behind their own test. Validity of paths, ring-buffer wrap-around and equality of block-based and single-word alignments are NOT decided.',
    note='Trusted: rustc MIR, extractor, call graph; impl_myers! is analysed in both instantiations (simple, long).',
    technique='static analysis: guard dominance, who-may-call over the call graph, must-pass-through ordering over rustc MIR',
    ref='DESIGN.md section 2, C10'),
 
  'C11': dict(level='other',
-   text='Robustness clauses decided on the MIR of the FASTA/FASTQ readers, record iterators and sniffers: (PO-2) every MIR Assert '
-        'and may-panic std call reachable from them is discharged (interval analysis; line[1..] by the dominating '
-        'starts_with(<ASCII char>) guard) or audited, explicit panics are violations; (ED-1) every Result produced there is '
-        'propagated/inspected, never unwrapped or dropped; (LP-1) every parser loop is counted or clears its line buffer before '
-        'read_line and exits on an empty buffer (necessary condition for termination at EOF); (TB-3) writer first byte / separator, '
-        'reader markers, sniffer mapping, Kind-to-parser pairing agree and every Ok path of get_kind_detailed carries '
-        'Cursor::new(sniffed byte).chain(reader). Losslessness over all records, layouts, buffer capacities and chunkings and which '
-        'records survive truncation are NOT decided.',
+   text='Robustness clauses decided on the MIR of the FASTA/FASTQ readers, record iterators and sniffers: (PO-2) every panic obligation reachable from them is discharged (line[1..] by the dominating starts_with(<ASCII>)) or audited; (ED-1) every Result is propagated/inspected; (LP-1) every parser loop is counted or clears its buffer before read_line and exits on an empty buffer; (LT-1) everything appended to seq/qual and the header is str::trim_end of the line buffer, so LF/CRLF and re-wrapped layouts parse alike; (GD-10) a FASTQ record is returned as Ok only with a non-empty quality string, otherwise Err(IncompleteRecord); (TB-3) writer markers/separator, reader markers, sniffer mapping, Kind-to-parser pairing agree and every Ok of get_kind_detailed carries Cursor::new(sniffed byte).chain(reader). Losslessness over all records, buffer capacities and chunkings is NOT decided.',
    note='Trusted: rustc MIR, extractor, interval engine, 2 audited obligations; the user-supplied BufRead does not panic; std read_line reports invalid UTF-8 as an error.',
    technique='static analysis: panic-obligation enumeration with interval discharge, error-discipline and loop-shape rules, table agreement over rustc MIR',
    ref='DESIGN.md section 2, C11'),
  'C12': dict(level='other',
-   text='Error and independence clauses decided on the MIR of IndexedReader: (GD-4) read/read_iter reach read_into_* only when '
-        'fetched_idx, start and stop are all Some, both read_into_* validate stop <= idx.len and start <= stop before seek_to with '
-        'Err on the other edges, unknown names/record numbers give Err, read_line turns an exhausted reader into '
-        'Err(UnexpectedEof) before copying/consuming, fill_buffer only runs with bases left; (SB-2) buffer and iterator paths make '
-        'the same interval checks; (TS-6) every fetch* sets start, stop and fetched_idx on every success path and nothing on the '
-        'failure path, from the parameters in order; (PO-3) all reachable panic obligations are discharged (stop - start via a '
-        'difference constraint) or audited. Exactness of offsets for every (start, stop, width, CRLF) and buffer fragmentation is '
-        'NOT decided.',
+   text='Error and independence clauses decided on the MIR of IndexedReader: (GD-4) read/read_iter need a complete fetch, both read_into_* validate stop <= idx.len and start <= stop before seek_to with Err otherwise, unknown names/numbers give Err, read_line turns an exhausted reader into Err(UnexpectedEof) before copying/consuming, fill_buffer runs only with bases left; (SB-2) buffer and iterator paths make the same checks; (TS-6) every fetch* sets start, stop and fetched_idx on every success path and nothing on failure, from the parameters in order; (ED-2) no plain Read::read whose byte count is ignored (short reads/truncation must not yield Ok); (PO-3) all reachable panic obligations discharged (stop - start via a difference constraint) or audited. Exactness of offsets for every (start, stop, width, CRLF) and fragmentation is NOT decided.',
    note='Trusted: rustc MIR, extractor, interval engine, 16 audited obligations (rules/c12.py); assumes index line width >= 1 as in the property quantifier.',
    technique='static analysis: guard dominance / must-store typestate / sibling agreement / panic obligations over rustc MIR',
    ref='DESIGN.md section 2, C12'),
+
+ 'C04': dict(level='other',
+   text='Clauses decided: (SB-10) writer/reader agreement of the sampled Occ table - Occ::new pushes a checkpoint for row i exactly when i % k == 0, after counting bwt[i], with k the stored field; Occ::get combines checkpoint r / k with a byte count over (q*k, r] (added) and, in the k > 64 look-ahead branch, checkpoint q + 1 with a count over (r, (q+1)*k] (subtracted); ranges and checkpoint indices are compared as polynomials in r, k and q = r / k, so algebraic rewrites are accepted and off-by-one changes are not; (GD-9) bwt() takes text[p-1] on p > 0 and text[n-1] otherwise. Exactness of less/prescan, invert_bwt and of the counts themselves over all texts is NOT decided.',
+   note='Trusted: rustc MIR, extractor, expression reconstruction and the polynomial normaliser (rules/poly.py); bytecount::count counts occurrences in the given slice.',
+   technique='static analysis: writer/reader agreement with symbolic (polynomial) normalisation of index arithmetic over rustc MIR',
+   ref='DESIGN.md section 2, C04'),
 }
 
 NOT_BUILT = 'rule not built yet (see DESIGN.md section 6)'
 NA = {
- 'C04': 'not applicable to static analysis: counting exactness of Occ/less/BWT for every (r,c,k) is arithmetic over runtime data; no clause whose truth is in the shape of the code (DESIGN.md C04)',
  'C05': 'not applicable to static analysis: interval exactness is arithmetic over Occ/less; the ownership clause holds by parametricity of the single blanket impl and cannot be broken by a compiling edit (DESIGN.md C05)',
 }
 
